@@ -227,7 +227,7 @@ class Program:
 
     # ------------------------------------------------------------------ CFG
     # ------------------------------------------------------------------ MIR-level inlining of single-use helpers
-    def inline_single_use_helpers(self, root, skip=None, max_rounds=6):
+    def inline_single_use_helpers(self, root, skip=None, max_rounds=6, allow_option=False, same_file=False):
         """Splice into `root` the bodies of the crate-local, non-public functions that `root` calls and that have
         exactly one call site in the whole program (helpers extracted for readability), so that rules anchored in
         `root` see the same statements whether or not the code was split into helpers.  Functions returning
@@ -254,11 +254,12 @@ class Program:
                 n = self.callee_name(t)
                 k = self.bodies.get(n)
                 if (k is None or n == root or k.get("crate") != crate or str(k.get("vis")) == "Public" or count.get(n) != 1
-                        or n.rsplit("::", 1)[0] != root.rsplit("::", 1)[0]  # only helpers of the same module / impl
+                        or (n.rsplit("::", 1)[0] != root.rsplit("::", 1)[0] and not (
+                            same_file and (k.get("span") or {}).get("file") == (body.get("span") or {}).get("file")))  # helpers of the same impl (or file)
                         or "{closure" in n or (skip and re.search(skip, n)) or n in done or not t.get("targets")):
                     continue
                 rty = k["locals"][0]["ty"]
-                if rty.startswith("core::result::Result") or rty.startswith("core::option::Option"):
+                if not allow_option and (rty.startswith("core::result::Result") or rty.startswith("core::option::Option")):
                     continue
                 if len(t["args"]) != k["argc"]:
                     continue
@@ -1051,7 +1052,7 @@ class PathExpr(Expr):
         return ("unknown", "undefined on this path: _%d" % l)
 
 
-def paths(prog, path, max_paths=128):
+def paths(prog, path, max_paths=128, with_calls=False):
     """Path-sensitive evaluation of a loop-free body: yields (conds, ret) for every entry-to-return path, where conds
     is the list of (condition expression, taken value | ('not', values)) of the switches passed and ret the returned
     value expression with every local resolved along *that* path (no phi).  Returns None if the body has a loop
@@ -1062,7 +1063,7 @@ def paths(prog, path, max_paths=128):
     out = []
     budget = [max_paths * 4]
 
-    def run(bid, env, conds, visited):
+    def run(bid, env, conds, visited, calls=()):
         while True:
             budget[0] -= 0
             if bid in visited:
@@ -1097,6 +1098,7 @@ def paths(prog, path, max_paths=128):
                 bid = t["targets"][0]
             elif k == "call":
                 val = ("call", Program.callee_name(t), tuple(pe.operand(a) for a in t["args"]), bid)
+                calls = calls + (val,)
                 if not t.get("targets"):
                     return
                 env = dict(env)
@@ -1111,15 +1113,60 @@ def paths(prog, path, max_paths=128):
             elif k == "switch":
                 cond = pe.operand(t["on"])
                 vals, tgts = t["values"], t["targets"]
+                # infeasible branches are pruned: the discriminant of a known aggregate, and a value that contradicts
+                # what an earlier switch on the very same expression established
+                fixed = None
+                c0 = cond
+                while c0 and c0[0] in ("block", "dom"):
+                    c0 = c0[-1]
+                if c0 and c0[0] == "discr" and isinstance(c0[1], tuple) and c0[1] and c0[1][0] == "agg" and c0[1][2] is not None:
+                    std = {"None": 0, "Some": 1, "Ok": 0, "Err": 1, "Continue": 0, "Break": 1}
+                    vname = c0[1][2]
+                    if str(c0[1][1]).startswith("core::") and vname in std:
+                        fixed = std[vname]
+                    else:
+                        adt = prog.adts.get(c0[1][1])
+                        if adt:
+                            names_ = [v_["name"] for v_ in adt["variants"]]
+                            if vname in names_:
+                                fixed = names_.index(vname)
+                elif c0 and c0[0] == "discr" and isinstance(c0[1], tuple) and c0[1] and c0[1][0] == "call" and "from_residual" in c0[1][1]:
+                    # the residual of `?` is always the failure variant: None for Option, Err for Result
+                    fixed = 0 if "FromResidual<core::option::Option<" in c0[1][1] else 1 if "FromResidual<core::result::Result<" in c0[1][1] else None
+                elif c0 and c0[0] == "const" and c0[1] == "int":
+                    fixed = int(c0[2])
+                prev = [tk for c_, tk in conds if c_ == cond]
+
+                def feasible(tk):
+                    if fixed is not None:
+                        if isinstance(tk, tuple):
+                            if fixed in tk[1]:
+                                return False
+                        elif tk != fixed:
+                            return False
+                    for p_ in prev:
+                        if isinstance(p_, tuple) and isinstance(tk, tuple):
+                            continue
+                        if isinstance(p_, tuple):
+                            if tk in p_[1]:
+                                return False
+                        elif isinstance(tk, tuple):
+                            if p_ in tk[1]:
+                                return False
+                        elif p_ != tk:
+                            return False
+                    return True
                 for v, tg in zip(vals, tgts):
                     if len(out) >= max_paths:
                         raise OverflowError("too many paths")
-                    run(tg, env, conds + [(cond, v)], visited)
-                run(tgts[-1], env, conds + [(cond, ("not", tuple(vals)))], visited)
+                    if feasible(v):
+                        run(tg, env, conds + [(cond, v)], visited, calls)
+                if feasible(("not", tuple(vals))):
+                    run(tgts[-1], env, conds + [(cond, ("not", tuple(vals)))], visited, calls)
                 return
             elif k == "return":
                 pe.env = env
-                out.append((conds, pe.local(0)))
+                out.append((conds, pe.local(0), calls) if with_calls else (conds, pe.local(0)))
                 if len(out) > max_paths:
                     raise OverflowError("too many paths")
                 return
